@@ -103,6 +103,14 @@ func TxSizeForFee(tx Transaction) (int, error) {
 				return fullSize, nil
 			}
 		}
+		// The header-only decode does not support an indefinite-length
+		// envelope; count its elements instead, the excluded IsValid byte is
+		// the same whatever form the array header takes
+		if len(cborData) > 0 && cborData[0] == cbor.CborTypeArray+0x1f {
+			if n, err := cbor.ListLength(cborData); err == nil && n == 4 {
+				return fullSize - 1, nil
+			}
+		}
 		return fullSize, nil
 	}
 	return fullSize, nil
